@@ -70,8 +70,8 @@ type c12Case struct {
 }
 
 const (
-	calBody  = "BEGIN:VCALENDAR\r\nVERSION:2.0\r\nPRODID:-//x//EN\r\nBEGIN:VEVENT\r\nUID:1\r\nDTSTAMP:20200101T000000Z\r\nDTSTART:20200101T000000Z\r\nEND:VEVENT\r\nEND:VCALENDAR\r\n"
-	cardBody = "BEGIN:VCARD\r\nVERSION:4.0\r\nFN:x\r\nEND:VCARD\r\n"
+	calBody  = "BEGIN:VCALENDAR\r\nVERSION:2.0\r\nPRODID:-//x//EN\r\nBEGIN:VEVENT\r\nUID:1\r\nDTSTAMP:20200101T000000Z\r\nDTSTART:20200101T000000Z\r\nSUMMARY;LANGUAGE=en:hello\r\nATTENDEE;CN=\"Doe, J\";PARTSTAT=ACCEPTED:mailto:j@example.com\r\nEND:VEVENT\r\nEND:VCALENDAR\r\n"
+	cardBody = "BEGIN:VCARD\r\nVERSION:4.0\r\nFN:x\r\nEMAIL;TYPE=work;PREF=1:a@example.com\r\nEND:VCARD\r\n"
 )
 
 func c12Backends(kind string, l c12Layout) (http.Handler, func() []harness.Call) {
